@@ -634,6 +634,7 @@ def c06(tier, seed):
         srch.searchctl(run, 2, True, "C06")
         if not quick:
             srch.searchctl(run, 3, False, "C06b")
+            srch.pvs_table(run, ["shared", "deep"], "C06")
         classes, pools, flat, games = search_pools(run, vh, "C06", seed, quick)
         scns = [s for s in srch.scenarios(run, "C06") if all(x["stop"] == "natural" for x in s)]
         if quick:
@@ -758,6 +759,7 @@ def c08(tier, seed):
 @check("C10")
 def c10(tier, seed):
     def build(run, vh, quick, rnd):
+        srch.pvs_table(run, ["shared"] if quick else ["shared", "deep"], "C10")
         classes = srch.solver_positions(run, seed, 250 if quick else 40, True, "C10")
         m1 = classes.get("m1", [])
         m2 = classes.get("m2", [])
@@ -1593,6 +1595,7 @@ def selftest():
               ("Uci", "mc/Uci_pinned_game.cfg", None, "NoPanic"), ("Capacity", "mc/Capacity_pinned_depth.cfg", None, "InvStack"),
               ("Capacity", "mc/Capacity_pinned_auto.cfg", None, "InvStack"),
               ("FenScan", "mc/FenScan_pinned5.cfg", None, "InvInRange"),
+              ("PvsTable", "mc/PvsTable_shared_seeded.cfg", None, "InvSound"),
               ("MC_Engine", "mc/MC_Engine_pinned.cfg", {"ROOTS": gen.gen_roots(game.ENGINE_ROOTS[:2], "roots_selftest.json")}, "InvConsistent")]
     for mod, cfg, env, want in pinned:
         r = core.tlc_mc(mod, cfg, workers=12, env=env, tag="selftest-" + os.path.basename(cfg), heap="12g")
